@@ -6,7 +6,8 @@ import PyIkev2.Props.C08
 #print axioms PyIkev2.Props.C08.c08_response_other_dropped
 #print axioms PyIkev2.Props.C08.c08_response_consumes_id
 #print axioms PyIkev2.Props.C08.c08_response_handler_sees_next_id
-#print axioms PyIkev2.Props.C08.c08_wrong_flag_or_spi_dropped
+#print axioms PyIkev2.Props.C08.c08_gate_closed
+#print axioms PyIkev2.Props.C08.c08_gate_conditions
 #print axioms PyIkev2.Props.C08.c08_executed_ids_strictly_increasing
 #print axioms PyIkev2.Props.C08.c08_at_most_once
 #print axioms PyIkev2.Props.C08.c08_retransmission_is_the_outstanding_request
